@@ -13,6 +13,8 @@ CONSTANTS
   NDis = 0
   NVec = 1
   NCbSend = 0
+  HostKinds = {"Empty", "PollRecv", "SemSet", "SemGet", "SemClr", "SemMask"}
+  NDspMask = 0
   TrackLockset = TRUE
 SPECIFICATION Spec
 INVARIANTS ValuesOK LocksetOK NoDeadlock HeldOK OwedSafe
